@@ -179,11 +179,12 @@ def quadrature_text(repo):
     t += '(* translated from %s: gauss_rule, per interval (a,b) *)\n' % path
     t += 'Definition gen_gauss_cell (ref : rule) (a b : Qc) : list (Qc * Qc) :=\n'
     t += '  map (fun xw => %s(%s, %s)) ref.\n' % (body, ret[0], ret[1])
+    t += 'Definition half_alias := half.\n'
     t += '''Lemma gen_gauss_cell_is_model : forall ref a b, gen_gauss_cell ref a b = gauss_cell ref a b.
 Proof.
   intros. unfold gen_gauss_cell, gauss_cell. apply map_ext. intros [x w]. cbn [fst snd].
   replace (q 1 2) with half by (apply Qc_is_canon; reflexivity).
-  f_equal; ring.
+  unfold half_alias. rewrite !half_inv. f_equal; field; apply two_neq0.
 Qed.
 '''
     # the two wrappers must be literally what the model assumes
